@@ -21,9 +21,9 @@ ASSUMPTIONS = [
     "a harvest event is the first step of a season on which the harvest flag is raised",
 ]
 FLOORS = {
-    "quick": {"summary_rows": 250, "biomass_checks": 15000, "rows_dead_crop": 5, "rows_cap_binding": 10,
+    "quick": {"table_rows_unexecuted_checked": 1, "summary_rows": 250, "biomass_checks": 15000, "rows_dead_crop": 5, "rows_cap_binding": 10,
               "rows_net_irrigation": 20, "rows_harvest_date": 10, "d_ratio_below_one": 500},
-    "thorough": {"summary_rows": 2500, "biomass_checks": 150000, "rows_dead_crop": 50,
+    "thorough": {"table_rows_unexecuted_checked": 1, "summary_rows": 2500, "biomass_checks": 150000, "rows_dead_crop": 50,
                  "rows_cap_binding": 100, "rows_net_irrigation": 200, "rows_harvest_date": 100,
                  "d_ratio_below_one": 5000},
 }
